@@ -6,7 +6,10 @@ C=$1; P=$2; T=${3:-quick}
 cd /repo || exit 2
 if ! git diff --quiet; then echo "/repo has uncommitted changes"; exit 2; fi
 git show "$C" | git apply -R || { echo "cannot reverse apply"; exit 2; }
+# evidence written while /repo is modified must not replace the evidence of the unchanged tree
+cp /verif/evidence/$P.json /tmp/evidence_$P.$$ 2>/dev/null
 timeout 1500 /verif/check "$P" "$T"; RC=$?
 git -C /repo checkout -- .
+[ -f /tmp/evidence_$P.$$ ] && mv /tmp/evidence_$P.$$ /verif/evidence/$P.json
 echo "== revert of $C -> $P $T exit $RC"
 exit 0
